@@ -1,5 +1,57 @@
 import Model
+import Proofs.C16
+
+/-
+  C16 — every frame is exactly as tall as the terminal (ansi part).
+  Property theorems only; helper lemmas live in Proofs/C16.lean.
+-/
 
 namespace C16
-theorem placeholder : True := trivial
+open Str Ansi
+
+/-- (1) For every prefix, centred text, suffix and every height ≥ 1 the result has exactly
+    `h` lines. -/
+theorem center_height (p c s : Str) (h : Nat) (hh : 1 ≤ h) :
+    height (centerVertically p c s h) = h := by
+  exact center_height_aux p c s h hh
+
+/-- The string-level function is the line-level one between `strings.Split` and `strings.Join`. -/
+theorem center_refines (p c s : Str) (h : Nat) (hh : 1 ≤ h) :
+    centerVertically p c s h = joinNL (centerLines (splitNL p) (splitNL c) (splitNL s) h) := by
+  -- the refinement holds for every `h`; `hh` is not needed
+  have _ := hh
+  exact center_refines_aux p c s h
+
+/-- (2a) When the centred text does not fit, the frame is its first `h` lines. -/
+theorem center_clip (p c s : Str) (h : Nat) (hle : h ≤ height c) :
+    centerVertically p c s h = joinNL ((splitNL c).take h) := by
+  exact center_clip_aux p c s h hle
+
+/-- (2b) When it fits, the frame is `top ++ centred ++ bottom` with `top` of `(h - |c|)/2`
+    lines taken from the end of the (blank-padded) prefix and `bottom` from the start of the
+    (blank-padded) suffix: the highlighted item is vertically centred. -/
+theorem center_position (p c s : List Str) (h : Nat) (hgt : h > c.length) :
+    ∃ top bottom : List Str,
+      centerLines p c s h = top ++ c ++ bottom ∧
+      top.length = (h - c.length) / 2 ∧
+      bottom.length = (h - c.length) / 2 + (h - c.length) % 2 ∧
+      (∃ k, top <:+ (List.replicate k [] ++ p)) ∧
+      (∃ k, bottom <+: (s ++ List.replicate k [])) := by
+  exact centerLines_position p c s h hgt
+
+/-- (3) Replacing the last line of a text of at least two lines by a newline-free string keeps
+    the height (and does not panic). -/
+theorem replace_keeps_height (s r : Str) (h2 : 2 ≤ height s) (hr : '\n' ∉ r) :
+    ∃ out, replaceLastLine s r = .ok out ∧ height out = height s := by
+  exact replace_aux s r h2 hr
+
+/-- … and the status line itself is newline-free: `SetLength` squashes newlines, for every
+    footer text and width ≥ 0 (a one-character ellipsis). -/
+theorem setLength_no_newline (f : Str) (w : Int) (e : Char) (hw : 0 ≤ w) (he : e ≠ '\n') :
+    ∃ out, setLength f w [e] = .ok out ∧ '\n' ∉ out ∧ (out.length : Int) = w := by
+  exact setLength_aux f w e hw he
+
+/-- Non-vacuity: the geometry that used to produce `h+1` lines (one spare row). -/
+example : height (centerVertically "a\nb".toList "x\ny\nz".toList "c".toList 4) = 4 := by decide
+
 end C16
